@@ -1,8 +1,8 @@
 Require Import FastZ.
 From Dashu Require Import Base.Prelude Float.RoundSpec Float.Contract Float.Model Int.IoSpec Float.TextIoSpec Float.TextIoModel Conv.ConvSpec Conv.ConvModel Float.IeeeImportModel Float.LargeExpBound
   Float.ElemF32 Float.ElemAsis Float.LargeExpAsis Float.WithBasePrec Int.GrlSpec Int.IoModel Int.IoDebugModel Float.DebugSpec Float.PartsConstModel
-  Float.ConvBaseModel4 Float.ConvBaseFull4 Float.RadixFmtModel.
-From DashuGen Require Import ConvBaseGen.
+  Float.ConvBaseModel4 Float.ConvBaseFull4 Float.RadixFmtModel Float.LargeExpAsis5.
+From DashuGen Require Import ConvBaseGen ConvBaseGen5.
 Extraction "model.ml" check_contract check_within_ulp check_within_ulp_incl dlen x_exp cmp_kx spec_round normalize
   parse_spec display_spec sci_spec display_body_spec sci_body_spec pad_spec layout_ok with_precision_spec float_rat base_prec_spec power_related
   from_ieee_spec ieee_decode repr_round repr_div
@@ -13,4 +13,5 @@ Extraction "model.ml" check_contract check_within_ulp check_within_ulp_incl dlen
   radix_info repr_debug_spec fbig_debug_spec repr_debug_alt_spec fbig_debug_alt_spec
   from_parts_const_asis from_parts_const_spec fbig_from_str_asis
   convert_base_asis4 convert_base_full_asis4 convert_base_spec common_root
+  convert_base_full_asis5 convert_exact_asis large_exact_window large_pass
   radix_format radix_asis radix_spec radix_body_asis radix_body_spec.
